@@ -2182,12 +2182,14 @@ func t2c02AlgoNames(c *Ctx) {
 		c.Unresolved(rule, "crypto/x509 source package (oracle)")
 		return
 	}
-	var tbl *types.Var
-	for _, v := range t2pkgVars(p) {
-		if m, ok := v.Type().Underlying().(*types.Map); ok && t2isNamed(m.Elem(), "crypto/x509", "PublicKeyAlgorithm") {
-			if b, ok := m.Key().Underlying().(*types.Basic); ok && b.Kind() == types.String {
-				tbl = v
-			}
+	// the name table, as a finite map: a map[string]x509.PublicKeyAlgorithm literal or a function switching on the
+	// (lower-cased) name (finitemap.go)
+	isStr := func(t types.Type) bool { b, ok := t.Underlying().(*types.Basic); return ok && b.Kind() == types.String }
+	isAlgo := func(t types.Type) bool { return t2isNamed(t, "crypto/x509", "PublicKeyAlgorithm") }
+	var tbl *finiteMap
+	for _, m := range w.finiteMaps("config", isStr, isAlgo) {
+		if len(w.fmLookups(m)) > 0 {
+			tbl = m
 		}
 	}
 	if tbl == nil {
@@ -2195,12 +2197,19 @@ func t2c02AlgoNames(c *Ctx) {
 		c.Floor(rule, 0, 6, "algorithm names")
 		return
 	}
-	entries, ok := mapLit(p, t2initOf(p, tbl))
-	if !ok {
-		c.Und(rule, tbl.Name()+"|constant literal", w.Pos(tbl.Pos()), "not a map literal with constant keys")
-		c.Floor(rule, 0, 6, "algorithm names")
-		return
+	c.Check(tbl.Frozen, rule, tbl.Name+"|constant literal", w.Pos(tbl.Pos), "only read after initialisation", "the name table is modified after initialisation")
+	algoName := func(v int64) string {
+		sc := xp.Types.Scope()
+		for _, n := range sc.Names() {
+			if k, ok := sc.Lookup(n).(*types.Const); ok && t2isNamed(k.Type(), "crypto/x509", "PublicKeyAlgorithm") {
+				if kv, ok := constant.Int64Val(k.Val()); ok && kv == v {
+					return "x509." + n
+				}
+			}
+		}
+		return fmt.Sprint(v)
 	}
+	entries := tbl.Entries
 	var stdNames map[int64]string
 	if sv, ok := xp.Types.Scope().Lookup("publicKeyAlgoName").(*types.Var); ok {
 		stdNames, _ = t2keyedStrings(xp, t2initOf(xp, sv))
@@ -2212,7 +2221,8 @@ func t2c02AlgoNames(c *Ctx) {
 		n++
 		pos := w.Pos(e.Pos)
 		c.Check(k == strings.ToLower(k), rule, "name:"+k+"|key is lower case", pos, "lower case (the hook looks up strings.ToLower(data))", fmt.Sprintf("key %q is not lower case: the lower-cased lookup can never find it", k))
-		v, vname, ok := t2constInt(p, e.Val)
+		v, ok := intConst(e.Vals[0])
+		vname := algoName(v)
 		if !ok {
 			c.Und(rule, "name:"+k+"|value matches the crypto/x509 name", pos, "value is not a constant")
 			continue
@@ -2244,17 +2254,27 @@ func t2c02AlgoNames(c *Ctx) {
 			continue
 		}
 		v, _ := constant.Int64Val(k.Val())
-		c.Check(present[v], rule, "algo:"+an+"|has a name", w.Pos(tbl.Pos()), "x509."+an+" is reachable by name", "no entry of "+tbl.Name()+" maps to x509."+an)
+		c.Check(present[v], rule, "algo:"+an+"|has a name", w.Pos(tbl.Pos), "x509."+an+" is reachable by name", "no entry of "+tbl.Name+" maps to x509."+an)
 	}
 	c.Floor(rule, n, 6, "algorithm names")
 
 	// the hook (on the SSA form, so that local names, helper extraction and merged guards do not matter)
 	hookFn := w.Func("config", "StringToX509PublicKeyAlgo")
-	if hookFn == nil || hookFn.Blocks == nil || len(hookFn.AnonFuncs) != 1 {
+	var lit *ssa.Function
+	if hookFn != nil && hookFn.Blocks != nil {
+		// the function it returns: a literal or a named function
+		for _, r := range liveReturns(hookFn) {
+			if len(r.Results) == 1 {
+				if f := funcValue(w.canon(hookFn, r.Results[0])); f != nil && f.Blocks != nil {
+					lit = f
+				}
+			}
+		}
+	}
+	if lit == nil {
 		c.Unresolved(rule, "function config.StringToX509PublicKeyAlgo returning one closure")
 		return
 	}
-	lit := hookFn.AnonFuncs[0]
 	c.Saw(lit)
 	lf := w.Facts(lit)
 	var data *ssa.Parameter
@@ -2272,39 +2292,39 @@ func t2c02AlgoNames(c *Ctx) {
 		b, ok := ta.AssertedType.(*types.Basic)
 		return ok && b.Kind() == types.String
 	}
-	var lookup *ssa.Lookup
+	var lookup *fmLookup
 	var parse *ssa.Call
+	for _, l := range w.fmLookups(tbl) {
+		if w.inTree(lit, l.Instr.Parent()) && lookup == nil {
+			ll := l
+			lookup = &ll
+		}
+	}
 	for _, fn := range w.Tree(lit) {
 		for _, b := range fn.Blocks {
 			for _, ins := range b.Instrs {
-				switch x := ins.(type) {
-				case *ssa.Lookup:
-					if ld, ok := x.X.(*ssa.UnOp); ok && lookup == nil {
-						if g, ok := ld.X.(*ssa.Global); ok && g.Object() == types.Object(tbl) {
-							lookup = x
-						}
-					}
-				case *ssa.Call:
-					if calleeName(x) == "strconv.ParseUint" && parse == nil {
-						parse = x
-					}
+				if x, ok := ins.(*ssa.Call); ok && calleeName(x) == "strconv.ParseUint" && parse == nil {
+					parse = x
 				}
 			}
 		}
 	}
-	lkey := "hook|looks up " + tbl.Name() + "[strings.ToLower(data.(string))]"
+	lkey := "hook|looks up " + tbl.Name + "[strings.ToLower(data.(string))]"
 	if lookup == nil {
-		c.Bad(rule, lkey, w.FnPos(lit), "the closure never reads "+tbl.Name())
+		c.Bad(rule, lkey, w.FnPos(lit), "the closure never reads "+tbl.Name)
 	} else {
 		okLow := false
 		if call, ok := w.canon(lit, lookup.Index).(*ssa.Call); ok && calleeName(call) == "strings.ToLower" && len(call.Call.Args) == 1 {
 			okLow = isDataString(call.Call.Args[0])
 		}
-		c.Check(okLow, rule, lkey, w.Pos(lookup.Pos()), "index is strings.ToLower(data.(string))", "the table is not indexed with strings.ToLower(<data>.(string)) (case-insensitive lookup lost)")
+		if tbl.Lowered && isDataString(lookup.Index) {
+			okLow = true // the table function lower-cases its argument itself
+		}
+		c.Check(okLow, rule, lkey, w.Pos(lookup.Instr.Pos()), "index is strings.ToLower(data.(string))", "the table is not indexed with strings.ToLower(<data>.(string)) (case-insensitive lookup lost)")
 	}
 	// found => that value is returned
-	if lookup != nil && lookup.CommaOk {
-		val, okv := extractOfV(lookup, 0), extractOfV(lookup, 1)
+	if lookup != nil && lookup.OK != nil {
+		val, okv := lookup.Val, lookup.OK
 		good, n := okv != nil && val != nil, 0
 		for _, r := range liveReturns(lit) {
 			if v, known := lf.KnownBool(r.Block(), okv); known && v {
@@ -2314,7 +2334,7 @@ func t2c02AlgoNames(c *Ctx) {
 				}
 			}
 		}
-		c.Check(good && n >= 1, rule, "hook|a found name returns the table value", w.Pos(lookup.Pos()), "if ok { return algo, nil }", "the comma-ok hit does not return the looked-up value with a nil error")
+		c.Check(good && n >= 1, rule, "hook|a found name returns the table value", w.Pos(lookup.Instr.Pos()), "if ok { return algo, nil }", "the comma-ok hit does not return the looked-up value with a nil error")
 	} else {
 		c.Und(rule, "hook|a found name returns the table value", w.FnPos(lit), "the table lookup is not of the comma-ok form")
 	}
@@ -2323,8 +2343,8 @@ func t2c02AlgoNames(c *Ctx) {
 		c.Bad(rule, pkey, w.FnPos(lit), "the closure has no strconv.ParseUint fallback")
 	} else {
 		after := lookup == nil
-		if lookup != nil && lookup.CommaOk {
-			if v, known := lf.KnownBool(parse.Block(), extractOfV(lookup, 1)); known && !v {
+		if lookup != nil && lookup.OK != nil {
+			if v, known := lf.KnownBool(parse.Block(), lookup.OK); known && !v {
 				after = true
 			}
 		}
